@@ -1048,6 +1048,10 @@ NITF_PROBES = [
     dict(name='nitf_truncated', what='last byte of the file removed', lean='mutation_truncate_falsifies_flRule'),
     # the SICD checker words its band rule `b0 != X and b1 != Y`: one wrong code is accepted although the message documents the pair
     # (theorem sicd_band_rule_accepts_one_wrong_code); reported, see NOTES_C18X
+    # root element and namespace of the SICD DES renamed: no SICD DES is left, check_file documents a ValueError for that (model: sicdScan = none)
+    dict(name='sicd_des_root_renamed', what='root element and namespace of the SICD DES renamed (no SICD DES left)', lean='mutation_no_sicd_des_falsifies_sicdScan',
+         apply=lambda p, r: (lambda so, sl, do, dl: p['buf'][:do] + p['buf'][do:do + dl].replace(b'<SICD', b'<SICX').replace(b'</SICD', b'</SICX').replace(b'"urn:SICD:', b'"urn:SICX:')
+                             + p['buf'][do + dl:])(*des_of(p['buf'], b'SICD'))),
     dict(name='sicd_isubcat_one_band', what='ISUBCAT of the second band altered (first one correct)', lean='sicd_band_rule_accepts_one_wrong_code',
          apply=m_isubcat(False)),
 ]
@@ -1230,8 +1234,7 @@ def run(tier):
                 obs, lobs = c18rules.cphd_file_observations(buf)
                 book.add(obs, lobs, r['all'], {'input': 'cphd-file', 'case': tag})
         else:
-            if not r['crash']:
-                nitf_rule_jobs(kind, buf, r, tag)
+            nitf_rule_jobs(kind, buf, r, tag)
             line = des_model_line(kind, buf)
             if line and not r['crash']:
                 msg = any(re.search(r'DES\.DESSH(TN|SV)', e) for e in r.get('all_errors', r['errors']))
@@ -1242,6 +1245,20 @@ def run(tier):
 
     def nitf_rule_jobs(kind, buf, r, tag):
         """image-segment rules of the SICD / SIDD checkers: reference rule on independently parsed subheaders vs what was logged"""
+        kinds = c18rules.nitf_des_kinds(buf)
+        if kinds is not None and kind == 'sicd':
+            n_sicd = sum(1 for k in kinds if k in ('sicd', 'oldsicd'))
+            want = n_sicd == 1 and not any(k in ('sidd', 'oldsidd') for k in kinds)      # exactly one SICD DES, no SIDD DES
+            refused = bool(r['crash']) and ('SICD DES' in r['crash'] or 'should be a SIDD file' in r['crash'])
+            bump('des_scan_' + ('found' if want else 'refused'))
+            seen.add(('des-scan', tuple(kinds)))
+            if want == refused:
+                fails.append({'kind': 'nitf-rule', 'key': 'rule:sicd_des_scan:' + ('rejects-valid' if want else 'accepts-invalid'),
+                              'msg': f'DES scan of check_sicd_file: the data extensions are {kinds} (exactly one SICD DES: {want}) but the checker '
+                                     f'{"raised " + r["crash"][:120] if refused else "went on"}', 'case': tag if 'kind' in tag or 'product' in tag else {'product': tag}})
+            rule_jobs.append(('desscan', drv.ask('chkspec desscan ' + (','.join(kinds) or '-')), (tag, kinds, want)))
+        if r['crash']:
+            return
         nl = c18rules.nitf_image_lines(kind, buf)
         if nl is None:
             return
@@ -1326,6 +1343,17 @@ def run(tier):
             prod = make_cphd(rng.getrandbits(40), tmpdir)
             do_product('cphd', prod, 'cphd')
             do_mutations(CPHD_MUTATIONS, prod)
+            if _ < 2:
+                # probe (reported, never a failure): the file cut inside the PVP block - the constructor of the checker reads the PVP arrays
+                # before any rule runs (same root cause as the listed finding crash:cphd_numvectors_plus1)
+                kv = cphdgen.parse_header(prod['buf'])[2]
+                path = os.path.join(tmpdir, 'probe.cphd')
+                with open(path, 'wb') as f:
+                    f.write(prod['buf'][:int(kv['PVP_BLOCK_BYTE_OFFSET']) + int(kv['PVP_BLOCK_SIZE']) - 1])
+                rr = run_cphd_checker(path)
+                key = 'crash' if rr['crash'] else ('flagged' if rr['errors'] else 'unflagged')
+                stats.setdefault('probes', {}).setdefault('cphd_truncated_into_pvp', {}).setdefault(key, 0)
+                stats['probes']['cphd_truncated_into_pvp'][key] += 1
         # structural rules on products whose PVP content is arbitrary (content rules do not apply)
         for _ in range(10 if quick else 100):
             prod = make_cphd(rng.getrandbits(40), tmpdir, consistent=False)
@@ -1465,6 +1493,7 @@ def run(tier):
                         if line and 'apply' not in pr:
                             rule_jobs.append(('fl-mutant', drv.ask(line), (pr['name'], len(b))))
                         if 'apply' in pr:
+                            rr.setdefault('errors', [])
                             nitf_rule_jobs('sicd', b, rr, {'probe': pr['name'], 'product': prod['case']})
         # ---- SICD documents with every subset of the optional parts the validation rules branch on (a crash is a violation)
         def sicd_document(base, radiometric, noise, drops):
@@ -1554,6 +1583,11 @@ def run(tier):
                 for j, w, l in zip(i, orc, lines):
                     if (ans[j] == '1') != w:
                         disagreements.append({'msg': f'image-segment rule: reference gives {ans[j]} for `{l}`, the documented rule gives {w}', 'case': tag})
+            elif what == 'desscan':
+                tag, kinds, w = payload
+                idx = [j for j, k in enumerate(kinds) if k in ('sicd', 'oldsicd')]
+                if (t[0] != 'N') != w or (w and int(t[0]) != idx[0]):
+                    disagreements.append({'msg': f'DES scan: reference gives {t[0]} for {kinds}, the documented rule gives {idx if w else "refusal"}', 'case': tag})
             elif what == 'sizerule':
                 tag, w, l = payload
                 if (t[0] == '1') != w:
